@@ -8,7 +8,6 @@ package vpreconf
 
 import (
 	"fmt"
-	"runtime"
 	"strings"
 	stdsync "sync"
 	"sync/atomic"
@@ -39,6 +38,33 @@ func entryKey(e *pending.PreConfirmed) string {
 	return sb.String()
 }
 
+// pacer is a condition variable over the run's atomic counters (logical pacing
+// between the writer and the readers; no wall clock).
+type pacer struct {
+	mu stdsync.Mutex
+	c  *stdsync.Cond
+}
+
+func newPacer() *pacer {
+	p := &pacer{}
+	p.c = stdsync.NewCond(&p.mu)
+	return p
+}
+
+func (p *pacer) wake() {
+	p.mu.Lock()
+	p.c.Broadcast()
+	p.mu.Unlock()
+}
+
+func (p *pacer) waitUntil(cond func() bool) {
+	p.mu.Lock()
+	for !cond() {
+		p.c.Wait()
+	}
+	p.mu.Unlock()
+}
+
 type regWrite struct{ k int } // k-th storage operation of the script
 type regRead struct{ first uint64 }
 
@@ -59,10 +85,16 @@ type concShared struct {
 	histMu   stdsync.Mutex
 	history  []porcupine.Operation
 	storeOps []mChain // chain after the k-th storage operation
+	pace     *pacer
+}
+
+func (c *concShared) fail() {
+	c.failed.Store(true)
+	c.pace.wake()
 }
 
 func (c *concShared) violate(class string, stepIdx int, detail string, extra any) {
-	c.failed.Store(true)
+	c.fail()
 	upto := min(stepIdx, len(c.s.Steps)-1)
 	c.r.Violation(class, c.idx, "concurrent: "+detail, witness{Mode: "concurrent", Step: stepIdx, Detail: detail, Script: c.s.describe(upto), Extra: extra})
 }
@@ -74,7 +106,10 @@ func (c *concShared) record(op porcupine.Operation) {
 }
 
 func (c *concShared) writer() {
-	defer c.done.Store(true)
+	defer func() {
+		c.done.Store(true)
+		c.pace.wake()
+	}()
 	k := 0
 	for i, st := range c.s.Steps {
 		if c.failed.Load() {
@@ -96,7 +131,7 @@ func (c *concShared) writer() {
 			if err != nil {
 				c.r.Inconclusive("canonical-chain-move-failed")
 				c.r.Note(err.Error())
-				c.failed.Store(true)
+				c.fail()
 				return
 			}
 		default:
@@ -105,7 +140,7 @@ func (c *concShared) writer() {
 			ret := c.clock.Add(1)
 			if hErr != nil {
 				c.r.Inconclusive("generated-update-not-decodable")
-				c.failed.Store(true)
+				c.fail()
 				return
 			}
 			c.record(porcupine.Operation{ClientId: 0, Input: regWrite{k}, Call: call, Output: nil, Return: ret})
@@ -125,10 +160,9 @@ func (c *concShared) writer() {
 		}
 		c.r.Count("conc_writer_ops", 1)
 		done := c.opsDone.Add(1)
+		c.pace.wake()
 		// logical pacing: let the readers observe (about) every state
-		for c.reads.Load() < done*3 && !c.failed.Load() {
-			runtime.Gosched()
-		}
+		c.pace.waitUntil(func() bool { return c.reads.Load() >= done*3 || c.failed.Load() })
 	}
 }
 
@@ -144,6 +178,7 @@ func (c *concShared) reader(id int, wg *stdsync.WaitGroup) {
 	defer wg.Done()
 	rng := lib.Rng(fmt.Sprintf("C20/conc/reader%d", id), uint64(c.idx))
 	var held []*concHeld
+	var myReads int64
 	recheck := func(hv *concHeld, now int64) bool {
 		c.r.Eval(1)
 		if _, p := checkContiguity(&hv.view, hv.first); p != "" {
@@ -171,7 +206,7 @@ func (c *concShared) reader(id int, wg *stdsync.WaitGroup) {
 		h, err := c.real.bc.Height()
 		if err != nil {
 			c.r.Inconclusive("height-read-failed")
-			c.failed.Store(true)
+			c.fail()
 			return
 		}
 		first := h + 1
@@ -257,9 +292,13 @@ func (c *concShared) reader(id int, wg *stdsync.WaitGroup) {
 			held = held[1:]
 		}
 		c.reads.Add(1)
+		c.pace.wake()
 		if finishing {
 			break
 		}
+		// logical pacing: at most a few reads per reader and writer operation
+		myReads++
+		c.pace.waitUntil(func() bool { return myReads < (c.opsDone.Load()+1)*3 || c.done.Load() || c.failed.Load() })
 	}
 	now := c.opsDone.Load()
 	for _, hv := range held {
@@ -302,7 +341,7 @@ func (c *concShared) registerModel() porcupine.Model {
 func runConcurrent(r *lib.Run, idx int) {
 	rng := lib.Rng("C20/conc", uint64(idx))
 	s := genScript(rng, 160+rng.IntN(120))
-	c := &concShared{r: r, idx: idx, s: s, real: newCanonReal(), storage: preconfirmed.NewChainStorage(), byKey: map[string]*mBlock{}}
+	c := &concShared{r: r, idx: idx, s: s, real: newCanonReal(), storage: preconfirmed.NewChainStorage(), byKey: map[string]*mBlock{}, pace: newPacer()}
 	for _, d := range s.Genesis {
 		if err := c.real.advance(d); err != nil {
 			r.Inconclusive("canonical-chain-build-failed")
